@@ -51,6 +51,12 @@ CLAIMED = {
  'C13': dict(category='proof',
    text='[flat primitives] Exact-tier theorems: get_side returns (n,Front)/(−n,Back) by the sign of n.d, so the normal faces the ray and side and normal flip from the other side; IntersectionInfo::new: unit normal parallel to dpdv x dpdu, perpendicular to both tangents; triangle: tangents are edges, Front = side of the right-hand-rule normal; disk: Front = side of the declared normal, tangents in the plane; transformed data: (M^-T n).(M t)=n.t, (M^-T n).d_world = n.d_local, unit for rigid M; distant source per the code. Known findings: NaN tangents at a disk centre / distant-source axis; zero normal for coplanar rays on large triangles.',
    design_ref='DESIGN.md section 4, C13', note='Trusted: Coq kernel + vm_compute, the 4 stdlib real/classical axioms, the hand-written model (bit-exact correspondence), IEEE-754 conformance. Not proved: float vs exact evaluation (sampled at 1e-9 x condition number). Hook: Disk3D::verif_fields. f32 not exercised.', technique='Coq proof over R (field/nsatz, polar-angle lemmas) + bit-exact model/code correspondence + exact-rational oracle'),
+ 'C19': dict(
+   category='proof',
+   text='Theorems over the reals (exact tier) about the Gallina model of point3d.rs, vector3d.rs, segment3d.rs, triangle3d.rs (non-ray part) and the constructor-to-area paths of sphere3d.rs/cylinder3d.rs/disk3d.rs/bbox3d.rs, each the specification of one function with its tolerance written in: is_parallel/is_same_direction <-> not tiny and |a x b|^2 < 1e-5 (Lagrange) [and a.b > 0]; get_perpendicular unit and perpendicular, Err exactly when all components <= 100 eps; is_collinear characterised (its measure is distance x length); get_intersection_pt solves the projected 2x2 system (Cramer), its two reported points coincide in 3-D iff the end points are coplanar, and a genuine meeting point is reported with its parameters; intersect <-> ta in [0,1), tb in [1e-8,1-1e-8); touches <-> both in [0,1]; contains/contains_point exact on the supporting line; test_point cascade <-> sign pattern of the barycentric coordinates of the projection at 100 eps; Heron = |ab x ac|/2; unit right-handed normal; circumcentre equidistant and in the plane, circumradius = that distance; centroid; aspect ratio; closed-form areas specialise to 4 pi r^2, 2 pi r h, pi r^2, 2(ab+bc+ca) (definitional). Where the current code violates the property the theorem is a _refuted witness plus a decidable class (F5: skew segments reported as crossing, common start point missed; F11: short edges; contains_point parametrised on a noise axis), listed in known_findings.json; C19_fixed_* theorems cover the proposed repair. The same model text runs on primitive floats bit-for-bit against the crate (no libm on any of these paths); an exact-rational oracle judges intersect/touches/contains/test_point/area/normal/circumcentre/vector predicates away from the tolerances.',
+   design_ref='DESIGN.md section 4, C19 (and F5, F11 in section 5)',
+   note='Trusted: Coq kernel + vm_compute, the stdlib real-number axioms (sig_forall_dec, sig_not_dec, functional_extensionality_dep, classic), primitive floats for the executed witnesses, the hand-written model (bit-exact correspondence on generated cases, debug and release), IEEE-754 conformance of rustc on x86-64. Not proved: float vs exact evaluation away from the tolerances (sampled by the oracle at 1e-9 scaled by conditioning). The area theorems are definitional.',
+   technique='Coq proof over R (ring/field/nra) per function + bit-exact model/code correspondence + exact-rational oracle'),
 }
 NOT_YET = 'check not built yet in this round (machinery under construction); see DESIGN.md section 4 for the planned Coq model and theorems'
 
